@@ -72,6 +72,7 @@ type SymFloat struct {
 	IsInt   *smt.Term // Bool: value is integral (nil if unknown)
 	Cls     *smt.Term // Int: 0 finite, 1 +Inf, 2 -Inf, 3 NaN; nil means finite
 	FracOf  *SymFloat // this value is the fractional part returned by math.Modf(FracOf)
+	NegZero *smt.Term // Bool: when the value is zero, its sign bit is set (nil = +0)
 }
 
 // AStr is an abstract string: only equality, code-point count, byte length,
@@ -460,3 +461,25 @@ func toString(v Value) string {
 
 // ZeroOf returns the zero engine value of type t.
 func ZeroOf(t types.Type) Value { return zero(t) }
+
+// ConcreteString returns the Go string denoted by a fully concrete engine string value.
+func ConcreteString(v Value) (string, bool) {
+	switch s := v.(type) {
+	case string:
+		return s, true
+	case *BStr:
+		b := make([]byte, len(s.B))
+		for i, x := range s.B {
+			switch x := x.(type) {
+			case uint64:
+				b[i] = byte(x)
+			case int64:
+				b[i] = byte(x)
+			default:
+				return "", false
+			}
+		}
+		return string(b), true
+	}
+	return "", false
+}
